@@ -85,6 +85,7 @@ func exec(o *vrt.Obs, w *b2fx.PeerWorld) {
 	o.Count("frames_from_lib_judged", int64(len(res.Received)))
 	o.Count("peer_turns_holding_traffic_back", int64(res.HeldTurns))
 	o.Count("frames_to_lib_delivered", int64(len(res.Delivered)))
+	o.Count("deferred_duplicate_copies_offered_again", int64(res.DupReoffered))
 	if res.HungUpBehindFQ {
 		o.Count("sessions_ended_by_FQ_and_hang-up_right_behind_the_last_frame", 1)
 	}
